@@ -68,32 +68,36 @@ def Table.targetOk (g : Grammar) (t : Table) (st : State) (X s' : Nat) : Bool :=
     st'.items.all fun it =>
       it.dot == 0 || (g.rhsAt it.prod (it.dot - 1) == some X && st.hasItemB it.prod (it.dot - 1))
 
-def Cert.structural (g : Grammar) (t : Table) (start aug sym : Nat) : Bool :=
+def Cert.structural (g : Grammar) (t : Table) (autos : List Auto) : Bool :=
   -- item_prod
   (t.forStates fun _ st => st.items.all fun it =>
       match g.prods[it.prod]? with
       | some pr => it.dot ≤ pr.rhs.length
       | none => false) &&
   -- start_items, aug_start_only
-  (t.forStates fun i st => st.items.all fun it =>
-      (i != start || it.dot == 0) && (i == start || !(it.prod == aug && it.dot == 0))) &&
+  (t.forStates fun i st => st.items.all fun it => autos.all fun a =>
+      (i != a.start || it.dot == 0) && (i == a.start || !(it.prod == a.aug && it.dot == 0))) &&
   -- no_into_start, shift_term, target_items (terminals), reduce_item, accept_item
   (t.forStates fun _ st =>
       decide (st.actions.size ≤ g.nterms) &&
       st.forCells fun a act =>
         match act with
-        | .shift s' => s' != start && t.targetOk g st a s'
+        | .shift s' => (autos.all fun au => s' != au.start) && t.targetOk g st a s'
         | .reduce p len =>
           st.hasItemB p len &&
           (match g.prods[p]? with
            | some pr => pr.rhs.length == len
            | none => false)
         | .accept =>
-          (match g.prods[aug]? with
-           | some pr => pr.rhs == [sym]
-           | none => false) && st.hasItemB aug 1) &&
+          autos.any fun au =>
+            (match g.prods[au.aug]? with
+             | some pr => pr.rhs == [au.sym]
+             | none => false) && st.hasItemB au.aug 1) &&
   -- gotos: no_into_start, target_items (nonterminals)
-  (t.forStates fun _ st => st.forGotos fun j s' => s' != start && t.targetOk g st (g.nterms + j) s')
+  (t.forStates fun _ st => st.forGotos fun j s' =>
+      (autos.all fun au => s' != au.start) && t.targetOk g st (g.nterms + j) s') &&
+  -- distinct start states
+  (autos.all fun a => autos.all fun b => a.start != b.start || decide (a = b))
 
 end Rustemo
 
@@ -128,5 +132,36 @@ def Cert.total (g : Grammar) (t : Table) (start : Nat) : Bool :=
       | .reduce p _ => !g.isAug p
       | .accept => true) &&
     (st.forGotos fun _ s' => decide (s' < t.states.size)))
+
+end Rustemo
+
+namespace Rustemo
+
+/-- production index of the layout automaton's augmented production (`AUGL: Layout`) -/
+def Grammar.auglProd (g : Grammar) : Option Nat :=
+  (List.range g.prods.size).find? fun p =>
+    match g.prods[p]? with
+    | some pr => some pr.lhs == g.auglIdx
+    | none => false
+
+/-- the automata of a table: the main one, and the layout automaton if the grammar has a Layout rule -/
+def autosOf (g : Grammar) (t : Table) : List Auto :=
+  ⟨0, 0, g.startIdx⟩ ::
+    (match t.layoutState, g.auglProd with
+     | some ls, some augl =>
+       (match g.prods[augl]? with
+        | some pr =>
+          (match pr.rhs with
+           | [lsym] => [⟨ls, augl, lsym⟩]
+           | _ => [])
+        | none => [])
+     | _, _ => [])
+
+/-- everything the LR soundness / no-panic theorems ask of a real table -/
+def Cert.lr (g : Grammar) (t : Table) : Bool :=
+  Cert.structural g t (autosOf g t) && Cert.total g t 0 &&
+  (match t.layoutState with
+   | none => true
+   | some ls => (autosOf g t).any (fun au => au.start == ls) && Cert.total g t ls)
 
 end Rustemo
